@@ -30,7 +30,16 @@ Hdr(e) ==          \* e.out: whole packet as emitted after the body changed to e
   ELSE IF k.fmt = "new" /\ ~k.partial /\ k.hl # 1 + Len(NewLenEnc(e.n)) THEN "C09.newlen"
   ELSE IF ~e.reparsed THEN "C09.width"
   ELSE "ok"
-Judge(e) == CASE e.k = "newenc" -> NewEnc(e) [] e.k = "newdec" -> NewDec(e)
+\* a whole export of a real object after operations that changed the size of packet bodies (re-protection with a cipher of another block
+\* size, ...): every length field must decode to the body that follows, i.e. the octets split into exactly the expected packets
+RealSeq(e) ==
+  LET sp == Split(e.blob) IN
+  IF ~sp.ok THEN "C09.width"
+  ELSE IF [k \in 1..Len(sp.pkts) |-> sp.pkts[k].tag] # e.tags THEN "C09.width"
+  ELSE IF \E k \in 1..Len(sp.pkts) : LET pk == sp.pkts[k] IN pk.fmt = "new" /\ ~pk.partial /\ pk.hl # 1 + Len(NewLenEnc(pk.bl)) THEN "C09.newlen"
+  ELSE IF ~e.reparsed THEN "C09.width"
+  ELSE "ok"
+Judge(e) == CASE e.k = "realseq" -> RealSeq(e) [] e.k = "newenc" -> NewEnc(e) [] e.k = "newdec" -> NewDec(e)
               [] e.k = "oldenc" -> OldEnc(e) [] e.k = "olddec" -> OldDec(e)
               [] e.k = "subenc" -> SubEnc(e) [] e.k = "subdec" -> SubDec(e)
               [] e.k = "mpienc" -> MpiEnc(e) [] e.k = "mpidec" -> MpiDec(e)
